@@ -235,7 +235,11 @@ impl vstd::std_specs::core::IndexSpecImpl<usize> for DMatrix {
   open spec fn index_req(&self, index: &usize) -> bool { self.ok() && *index < self@.r * self@.c }
 }
 impl core::ops::Index<usize> for DMatrix { type Output = Sc;
-  #[verifier::external_body] fn index(&self, index: usize) -> (r: &Sc) ensures r.fin() == self.efin(index as int) { unimplemented!() } }
+  #[verifier::external_body] fn index(&self, index: usize) -> (r: &Sc)
+    ensures r.fin() == self.efin(index as int),
+            self@.c == 1 ==> r@ == self@.e[0][index as int],
+            self@.r >= 1 ==> r@ == self@.e[(index as int) / (self@.r as int)][(index as int) % (self@.r as int)]
+  { unimplemented!() } }
 /// representation facts of every allocated matrix: rectangular, and r*c elements fit the address space
 #[verifier::external_body]
 pub broadcast proof fn axiom_dm_wf(m: &DMatrix)
@@ -385,6 +389,15 @@ impl MView {
   #[verifier::external_body]
   pub fn column(&self, j: usize) -> (v: MView) requires j < self@.c ensures v@ == col(self@, j as int) { unimplemented!() }
 }
+/// nalgebra Index<usize> on a view: the i-th element in column-major order; panics when out of bounds
+impl vstd::std_specs::core::IndexSpecImpl<usize> for MView {
+  open spec fn index_req(&self, index: &usize) -> bool { *index < self@.r * self@.c }
+}
+impl core::ops::Index<usize> for MView { type Output = Sc;
+  #[verifier::external_body] fn index(&self, index: usize) -> (r: &Sc)
+    ensures self@.c == 1 ==> r@ == self@.e[0][index as int],
+            self@.r >= 1 ==> r@ == self@.e[(index as int) / (self@.r as int)][(index as int) % (self@.r as int)]
+  { unimplemented!() } }
 /// nalgebra Index<(usize, usize)>: panics when out of bounds
 impl vstd::std_specs::core::IndexSpecImpl<(usize, usize)> for DMatrix {
   open spec fn index_req(&self, index: &(usize, usize)) -> bool { self.ok() && index.0 < self@.r && index.1 < self@.c }
@@ -399,6 +412,9 @@ impl vstd::std_specs::ops::MulSpecImpl<Sc> for DMatrix {
 }
 impl core::ops::Mul<Sc> for DMatrix { type Output = DMatrix;
   #[verifier::external_body] fn mul(self, rhs: Sc) -> (r: DMatrix) ensures r@ == scale(self@, rhs@), r.ok() { unimplemented!() } }
+/// num_traits::One::one
+pub trait One: Sized { spec fn ov(&self) -> real; fn one() -> (r: Self) ensures r.ov() == 1real; }
+impl One for Sc { open spec fn ov(&self) -> real { self@ } #[verifier::external_body] fn one() -> (r: Self) { unimplemented!() } }
 /// num_traits::Zero::zero
 pub trait Zero: Sized { spec fn zv(&self) -> real; fn zero() -> (r: Self) ensures r.zv() == 0real; }
 impl Zero for Sc { open spec fn zv(&self) -> real { self@ } #[verifier::external_body] fn zero() -> (r: Self) { unimplemented!() } }
